@@ -114,6 +114,13 @@ func TestC06(t *testing.T) {
 		st.Eval()
 		f, accepted := checkC06(c)
 		if f != nil {
+			if c.Raw == nil {
+				c.Toks = gen.MinimizeToks(c.Toks, func(t []gen.Tok) bool {
+					ff, _ := checkC06(TokCase{Toks: t, DF: c.DF, Fill: c.Fill})
+					return ff != nil && ff.Sub == f.Sub
+				})
+				f, _ = checkC06(c)
+			}
 			c.Text = c.text()
 			st.Violate(stream, c, f)
 			return false
